@@ -4,13 +4,13 @@ from __future__ import annotations
 from typing import Any, Dict, List
 
 from mc.common import Acc
-from mc.proc_driver import explore_config
+from mc.proc_driver import explore_config, explore_long
 from mc.proc_driver import replay as _replay
 
 META = {
     "kind": "graph",
     "engine": "E2 BFS to fixpoint over tick histories of the real ProcessManager.start() on a fake OS",
-    "rule": "for every (workers in 1..3, max_fails in {-1,0,1,2,3}) all tick histories over the alphabet {subset of workers dies} x {none, SIGHUP, SIGINT, SIGTERM, file change} x {subset of restarted workers crash at start} (+ bounded deviations) are explored breadth-first with de-duplication on the canonical state (per-slot process state, action queue, restart counter read from the suspended frame, monitor state) until no new state appears (fixpoint). Oracle C17: at every Process.start() no other live process has the same slot name and the previous occupant was joined; the number and names of slots never change; a worker observed dead at a scan is replaced by the end of the next tick unless the manager returned. distinct_nontrivial = distinct (configuration, exit, facts) outcomes.",
+    "rule": "for every (workers in 1..3, max_fails in {-1,0,1,2,3}) all tick histories over the alphabet {subset of workers dies} x {none, SIGHUP, SIGINT, SIGTERM, file change} x {subset of restarted workers crash at start} (+ bounded deviations) are explored breadth-first with de-duplication on the canonical state (per-slot process state, action queue, restart counter read from the suspended frame, monitor state) until no new state appears (fixpoint); in addition every history of 6 (quick) / 8 (thorough) ticks over the 5-letter alphabet {nothing, SIGHUP, file change, worker 0 dies, SIGINT} is run without state matching (guard against state the canonical form cannot see). Oracle C17: at every Process.start() no other live process has the same slot name and the previous occupant was joined; the number and names of slots never change; a worker observed dead at a scan is replaced by the end of the next tick unless the manager returned. distinct_nontrivial = distinct (configuration, exit, facts) outcomes.",
     "assumptions": [
         "fake multiprocessing.Process/Queue/Event, os.kill, signal.signal, sleep stand for the OS (Linux semantics: kill on a reaped pid raises ProcessLookupError, on a zombie succeeds; is_alive()/join() reap)",
         "per tick: any subset of workers dies, at most one signal/file event, any subset of restarted workers crashes before its start-up wait; deviations (signal between drain and scan, Queue.empty() lag) bounded per history",
@@ -32,11 +32,16 @@ def shards(tier: str, seed: int) -> List[Any]:
             if w == 3 and tier == "quick":
                 d = 0  # 3 workers: the plain alphabet already has 320 letters per tick
             out.append({"workers": w, "max_fails": mf, "dev": d, "depth": depth})
+    for w, mf in ((1, -1), (1, 3), (2, -1)):
+        out.append({"workers": w, "max_fails": mf, "long": 6 if tier == "quick" else 8})
     return out
 
 
 def run_shard(shard: Dict[str, Any]) -> Dict[str, Any]:
     acc = Acc()
+    if shard.get("long"):
+        explore_long("C17", shard["workers"], shard["max_fails"], shard["long"], acc)
+        return acc.as_dict()
     explore_config("C17", shard["workers"], shard["max_fails"], shard["dev"], shard["depth"], acc)
     return acc.as_dict()
 
